@@ -1,0 +1,74 @@
+//! Observation hooks for out-of-tree runtime monitors.
+//!
+//! Everything in this module is compiled only with the `verif_hooks` cargo
+//! feature (off by default). The hooks only *call into* existing crate-private
+//! code paths; they never change the behaviour of any other item.
+
+use core::num::NonZeroU128;
+
+use crate::{
+    options::RoundingMode,
+    rounding::{IncrementRounder, Round},
+    utils,
+};
+
+/// `RoundNumberToIncrement` as instantiated for `i128` quantities.
+pub fn round_i128(x: i128, increment: u128, mode: RoundingMode) -> Option<i128> {
+    let increment = NonZeroU128::new(increment)?;
+    Some(
+        IncrementRounder::<i128>::from_signed_num(x, increment)
+            .ok()?
+            .round(mode),
+    )
+}
+
+/// `RoundNumberToIncrement` as instantiated for `f64` quantities.
+pub fn round_f64(x: f64, increment: u128, mode: RoundingMode) -> Option<i128> {
+    let increment = NonZeroU128::new(increment)?;
+    Some(
+        IncrementRounder::<f64>::from_signed_num(x, increment)
+            .ok()?
+            .round(mode),
+    )
+}
+
+/// The raw date -> epoch day kernel.
+pub fn epoch_days_from_ymd(year: i32, month: u8, day: u8) -> i32 {
+    utils::epoch_days_from_gregorian_date(year, month, day)
+}
+
+/// The raw epoch day -> date kernel.
+pub fn ymd_from_epoch_days(epoch_days: i32) -> (i32, u8, u8) {
+    utils::ymd_from_epoch_milliseconds(utils::epoch_days_to_epoch_ms(epoch_days, 0))
+}
+
+#[cfg(feature = "compiled_data")]
+mod shared_provider {
+    use crate::builtins::TZ_PROVIDER;
+
+    /// Acquires the process-wide provider lock and panics while holding it.
+    pub fn panic_while_holding_tz_provider() {
+        let _guard = TZ_PROVIDER.lock();
+        panic!("verif_hooks: injected panic while holding the time zone provider");
+    }
+
+    /// Whether the process-wide provider mutex is currently poisoned.
+    pub fn tz_provider_poisoned() -> bool {
+        TZ_PROVIDER.is_poisoned()
+    }
+
+    /// Runs `f` while holding the process-wide provider lock (contention injection).
+    /// Returns `false` if the lock could not be acquired because it is poisoned.
+    pub fn with_tz_provider_locked(f: impl FnOnce()) -> bool {
+        match TZ_PROVIDER.lock() {
+            Ok(_guard) => {
+                f();
+                true
+            }
+            Err(_) => false,
+        }
+    }
+}
+
+#[cfg(feature = "compiled_data")]
+pub use shared_provider::*;
